@@ -237,10 +237,8 @@ def execute_daemon(case):
 
 
 def _same(a, b):
-    if isinstance(a, float) and isinstance(b, float) and \
-            math.isnan(a) and math.isnan(b):
-        return True
-    return a == b and _type(a) == _type(b)
+    # structural equality that treats NaN as equal to itself, also nested
+    return json.dumps(a, sort_keys=True) == json.dumps(b, sort_keys=True)
 
 
 def _parse(payload):
